@@ -27,6 +27,9 @@ def _n(t, env, wide):
             return ("wsub", _n(t[2][0], env, wide), _n(t[2][1], env, wide))
         if name in WIDEN_INTO:
             return _n(t[2][0], env, wide)
+        if name.startswith("core::num::<impl ") and name.split("::")[-1] in ("to_be_bytes", "to_le_bytes", "from_be_bytes", "from_le_bytes"):
+            ity = name[len("core::num::<impl "):].split(">")[0]
+            return (name.split("::")[-1].replace("_bytes", "").replace("_", ""), ity, _n(t[2][0], env, wide))
     if k == "binop":
         op = t[1]
         a, b = _n(t[2], env, wide), _n(t[3], env, wide)
@@ -56,6 +59,8 @@ def _n(t, env, wide):
     if k == "after" and is_call(t[1], "core::slice::<impl [T]>::swap") and t[2] == 0:
         c = t[1]
         return ("swap", _n(t[3], env, wide), _n(c[2][1], env, wide), _n(c[2][2], env, wide))
+    if k == "agg" and t[1] == "array":
+        return ("arr", tuple(_n(x, env, wide) for x in t[4]))
     if k == "field":
         return ("fld", _n(t[1], env, wide), t[2])
     if k == "param":
